@@ -4,13 +4,18 @@ import (
 	"bytes"
 	"context"
 	"fmt"
+	"io"
 	"strings"
 	"time"
 	"unicode/utf8"
 
+	"google.golang.org/genproto/googleapis/api/annotations"
+	"google.golang.org/grpc/grpclog"
 	"larking.io/larking"
 
+	"verif/internal/backend"
 	"verif/internal/mon"
+	"verif/internal/svc"
 	"verif/internal/vschema"
 )
 
@@ -24,7 +29,11 @@ import (
 //
 // Requests are generated for the endpoints of a reference service (so that
 // paths and methods look real) and served by a mux in that state.
-var lifeStates = []string{"life:new", "life:failed", "life:dropped"}
+//
+//	life:refresh-refused  a connection was registered, then the back-end's
+//	              descriptors changed and the second RegisterConn (refresh) of
+//	              the same connection was refused
+var lifeStates = []string{"life:new", "life:failed", "life:dropped", "life:refresh-refused"}
 
 // failingSet is rejected by registration (unknown field in the template).
 func failingSet() *RSet {
@@ -36,16 +45,74 @@ func failingSet() *RSet {
 
 type lifeTarget struct {
 	t  *target
-	px *proxyTarget // back-end of life:dropped
+	px *proxyTarget     // back-end of life:dropped
+	be *backend.Backend // back-end of life:refresh-refused
 }
 
 func (l *lifeTarget) close() {
 	if l.px != nil {
 		l.px.close()
 	}
+	if l.be != nil {
+		l.be.Close()
+	}
+}
+
+// newRefreshRefused builds muxes that registered a back-end successfully and
+// then refused its refresh: the second revision of the back-end's file has a
+// rule naming an unknown field. The first revision must stay in service.
+func newRefreshRefused() (*lifeTarget, error) {
+	quietGRPC.Do(func() { grpclog.SetLoggerV2(grpclog.NewLoggerV2(io.Discard, io.Discard, io.Discard)) })
+	good, err := svc.BuildStd("vf.rfr", "vf/rfr.proto", "/r1")
+	if err != nil {
+		return nil, err
+	}
+	f2 := svc.StdFile("vf.rfr", "vf/rfr.proto", "/r1")
+	ms := f2.Services[0].Methods
+	ms[len(ms)-1].Rule = &annotations.HttpRule{Pattern: &annotations.HttpRule_Get{Get: "/r1/changed/{no_such_field}"}}
+	ms[0].Rule = &annotations.HttpRule{Pattern: &annotations.HttpRule_Get{Get: "/r1/moved/{a}"}}
+	bad, err := f2.Build()
+	if err != nil {
+		return nil, err
+	}
+	backendBeh := &beh{}
+	be, err := backend.Start("refresh", true, backend.Svc{SD: good.SD, Impl: backendBeh})
+	if err != nil {
+		return nil, err
+	}
+	l := &lifeTarget{be: be}
+	l.t = &target{Kind: "life:refresh-refused", cache: map[int]*built{}, eps: endpointsOf(good.SD), fd: good.FD}
+	for opts := 0; opts < 8; opts++ {
+		mux, err := larking.NewMux(muxOptions(opts, &beh{})...)
+		if err != nil {
+			l.close()
+			return nil, err
+		}
+		ctx, cancel := context.WithTimeout(context.Background(), 20*time.Second)
+		var err1, err2 error
+		pi := mon.Catch(func() {
+			be.SetFiles(good.FD)
+			if err1 = mux.RegisterConn(ctx, be.CC); err1 != nil {
+				return
+			}
+			be.SetFiles(bad)
+			err2 = mux.RegisterConn(ctx, be.CC)
+		})
+		cancel()
+		if pi != nil || err1 != nil || err2 == nil {
+			l.close()
+			return nil, fmt.Errorf("life:refresh-refused: first=%v refresh=%v panic=%v (the refresh must be refused)", err1, err2, pi)
+		}
+		l.t.cache[opts] = &built{mux, backendBeh}
+	}
+	be.SetFiles(good.FD)
+	return l, nil
 }
 
 func newLifeTarget(state string) (*lifeTarget, error) {
+	if state == "life:refresh-refused" {
+		return newRefreshRefused()
+	}
 	l := &lifeTarget{}
 	switch state {
 	case "life:new", "life:failed":
